@@ -35,7 +35,7 @@ package aggoracle
 //@   ensures injectCalls == old(injectCalls) + 1 && lastInjected == ger
 //@   ensures result == nil ==> gerInjected == upd(old(gerInjected), ger, true)
 
-//@ func (a *AggOracle) getLastFinalizedGER
+//@ func (a *AggOracle) getLastFinalizedGER (a, ctx, targetBlockNum)
 //@   props C15
 //@   requires a != nil && a.l1Client != nil && a.l1Info != nil
 //@   requires targetBlockNum != 0 ==> sampledFinal[targetBlockNum]
@@ -51,7 +51,7 @@ package aggoracle
 // progress (the per-tick part of "while newer finalized roots keep appearing it keeps injecting them"): a block is
 // kept for the next tick only while the syncer has not answered for it; once a lookup was answered - whatever happens
 // next in the tick: root already present, injection, sender error - the next tick samples the finality afresh
-//@ func (a *AggOracle) processLatestGER
+//@ func (a *AggOracle) processLatestGER (a, ctx, blockNumToFetch)
 //@   props C15
 //@   requires a != nil && a.l1Client != nil && a.l1Info != nil && a.chainSender != nil && a.logger != nil && blockNumToFetch != nil
 //@   requires *blockNumToFetch != 0 ==> sampledFinal[*blockNumToFetch]
@@ -66,10 +66,10 @@ package aggoracle
 // ---- the oracle's loop (C15): every tick runs one processLatestGER on the same retained-block cell; its
 // precondition (a retained block was sampled with the configured finality) is an invariant of the loop, so the
 // per-tick statements above hold on every tick of every run, and nothing else in the loop injects
-//@ func (a *AggOracle) handleGERProcessingError
+//@ func (a *AggOracle) handleGERProcessingError (a, err, blockNumToFetch)
 //@   trusted
 //@   modifies nothing
-//@ func (a *AggOracle) Start
+//@ func (a *AggOracle) Start (a, ctx)
 //@   props C15
 //@   requires a != nil && a.l1Client != nil && a.l1Info != nil && a.chainSender != nil && a.logger != nil
 //@   modifies sampledFinal, lastSampled, gerInjected, lastInjected, injectCalls, infoLookupsOK
